@@ -78,7 +78,7 @@ Record pstate := {
 
 (* the environment the parser consults: p.funcs (name, isNiladic) and the variables in scope *)
 Record env := { e_funcs : list (str * bool); e_vars : list str;
-                 (* the typing oracle: site, the tree being checked, position (tokens left) *)
+                 (* the typing oracle: site, the tree being checked, the token the error would blame (tokens left) *)
                  e_tyerr : tsite -> tree -> nat -> bool;
                  (* false = the code as it is; true = parseSlice with the proposed fix
                     (proposed_fixes/C01-slice-rbracket-ws.diff): "]" consumed with advanceWSS *)
@@ -233,8 +233,9 @@ Fixpoint parse_type (fuel : nat) (st : pstate) : res (option ty) :=
 Section Open.
 Variable pe : nat -> pstate -> res (option tree).
 
-(* does the type checker object at site s to tree t (decided by the oracle) *)
-Definition tyerr (s : tsite) (t : tree) (st : pstate) : bool := e_tyerr E s t (here st).
+(* does the type checker object at site s to tree t; [blame] locates the token the error would
+   be reported for (decided by the oracle) *)
+Definition tyerr (s : tsite) (t : tree) (blame : nat) : bool := e_tyerr E s t blame.
 
 (* parseExprWSS *)
 Definition parse_expr_wss (st : pstate) : res (option tree) :=
@@ -266,7 +267,7 @@ Definition parse_func_call (fuel : nat) (is_top : bool) (niladic : bool) (st : p
   if is_top || negb niladic then
     do (args, st2) <- parse_expr_list fuel [] st1;
     let c := TCall name (match args with Some l => l | None => [] end) in
-    ret (Some c) (if tyerr TS_call_args c st2 then add_err (E_type TS_call_args) st2 else st2)
+    ret (Some c) (if tyerr TS_call_args c (here st2) then add_err (E_type TS_call_args) st2 else st2)
   else ret (Some (TCall name [])) st1.
 
 (* parseTopLevelExpr *)
@@ -308,7 +309,7 @@ Fixpoint parse_array_elems (fuel : nat) (acc : list tree) (st : pstate) : res (o
       match n with
       | None => ret None st1
       | Some t =>
-        if tyerr TS_array_elem_none t st1 then ret None (add_err_at (E_type TS_array_elem_none) el_tok st1) else
+        if tyerr TS_array_elem_none t el_tok then ret None (add_err_at (E_type TS_array_elem_none) el_tok st1) else
         match parse_multiline_ws fuel st1 with
         | None => None
         | Some st2 => parse_array_elems f (t :: acc) st2
@@ -355,7 +356,7 @@ Fixpoint parse_map_pairs (fuel : nat) (acc : list (str * tree)) (st : pstate) : 
       match n with
       | None => ret None st4
       | Some t =>
-        if tyerr TS_map_value_none t st4 then ret None (add_err_at (E_type TS_map_value_none) val_tok st4) else
+        if tyerr TS_map_value_none t val_tok then ret None (add_err_at (E_type TS_map_value_none) val_tok st4) else
         match parse_multiline_ws fuel st4 with
         | None => None
         | Some st5 => parse_map_pairs f ((key, t) :: acc) st5
@@ -405,7 +406,7 @@ Definition parse_unary (st : pstate) : res (option tree) :=
   match r with
   | None => ret None st3
   | Some t =>
-      if tyerr TS_unary (TUn op t) st3 then ret None (add_err_at (E_type TS_unary) tok st3)  (* validateUnaryType *)
+      if tyerr TS_unary (TUn op t) tok then ret None (add_err_at (E_type TS_unary) tok st3)  (* validateUnaryType *)
       else ret (Some (TUn op t)) st3
   end.
 
@@ -419,7 +420,7 @@ Definition parse_binary (left : tree) (st : pstate) : res (option tree) :=
   match r with
   | None => ret None st2
   | Some t =>
-      if tyerr TS_binary (TBin op left t) st2 then ret None (add_err_at (E_type TS_binary) tok st2)  (* validateBinaryType *)
+      if tyerr TS_binary (TBin op left t) tok then ret None (add_err_at (E_type TS_binary) tok st2)  (* validateBinaryType *)
       else ret (Some (TBin op left t)) st2
   end.
 
@@ -439,12 +440,12 @@ Definition slice_close (st : pstate) : pstate :=
   if e_fix_slice E then advance_wss st else advance st.
 
 Definition parse_slice (fuel : nat) (tok : nat) (left : tree) (start : option tree) (st : pstate) : res (option tree) :=
-  if tyerr TS_not_sliceable left st then ret None (add_err_at (E_type TS_not_sliceable) tok st) else
+  if tyerr TS_not_sliceable left tok then ret None (add_err_at (E_type TS_not_sliceable) tok st) else
   match cur_t st with
   | T_RBRACKET =>
       let st1 := slice_close st in
       let t := TSlice left start None in
-      if tyerr TS_slice_bounds t st1 then ret None (add_err_at (E_type TS_slice_bounds) tok st1) else ret (Some t) st1
+      if tyerr TS_slice_bounds t tok then ret None (add_err_at (E_type TS_slice_bounds) tok st1) else ret (Some t) st1
   | _ =>
     do (e, st1) <- parse_toplevel fuel st;
     match e with
@@ -454,7 +455,7 @@ Definition parse_slice (fuel : nat) (tok : nat) (left : tree) (start : option tr
       if ok then
         let st3 := slice_close st2 in
         let t := TSlice left start (Some x) in
-        if tyerr TS_slice_bounds t st3 then ret None (add_err_at (E_type TS_slice_bounds) tok st3) else ret (Some t) st3
+        if tyerr TS_slice_bounds t tok then ret None (add_err_at (E_type TS_slice_bounds) tok st3) else ret (Some t) st3
       else ret None st2
     end
   end.
@@ -466,7 +467,7 @@ Definition parse_index_or_slice (fuel : nat) (allow_slice : bool) (left : tree) 
   let fin (r : res (option tree)) : res (option tree) := do (x, s) <- r; ret x (pop_wss s) in
   if is_ws (prev st0) then ret None (pop_wss (add_err E_ws_before_bracket st0)) else
   let st1 := advance st0 in
-  if tyerr TS_not_indexable left st1 then ret None (pop_wss (add_err_at (E_type TS_not_indexable) tok st1)) else
+  if tyerr TS_not_indexable left tok then ret None (pop_wss (add_err_at (E_type TS_not_indexable) tok st1)) else
   let is_colon (s : pstate) : bool := allow_slice && match cur_t s with T_COLON => true | _ => false end in
   if is_colon st1 then fin (parse_slice fuel tok left None (advance st1)) else
     do (ix, st2) <- parse_toplevel fuel st1;
@@ -477,7 +478,7 @@ Definition parse_index_or_slice (fuel : nat) (allow_slice : bool) (left : tree) 
         (* validateIndex *)
         let '(ok, st3) := assert_token T_RBRACKET st2 in
         if ok then
-          if tyerr TS_index_type (TIndex left i) st3 then ret None (pop_wss (add_err_at (E_type TS_index_type) tok st3))
+          if tyerr TS_index_type (TIndex left i) tok then ret None (pop_wss (add_err_at (E_type TS_index_type) tok st3))
           else ret (Some (TIndex left i)) (pop_wss (advance_wss st3))
         else ret None (pop_wss st3)
     end.
@@ -488,7 +489,7 @@ Definition parse_dot (left : tree) (st : pstate) : res (option tree) :=
   if is_ws (prev st) then ret None (add_err E_ws_before_dot st) else
   if is_ws (look1 (rest st)) then ret None (add_err E_ws_after_dot st) else
   let st1 := advance st in
-  if tyerr TS_dot_not_map left st1 then ret None (add_err_at (E_type TS_dot_not_map) tok st1) else
+  if tyerr TS_dot_not_map left tok then ret None (add_err_at (E_type TS_dot_not_map) tok st1) else
   let key := as_ident (cur st1) in
   match ttype key with
   | T_IDENT => ret (Some (TDot left (tlit key))) (advance st1)
@@ -509,7 +510,7 @@ Definition parse_type_assertion (fuel : nat) (left : tree) (st : pstate) : res (
              end in
   let '(ok, st4) := assert_token T_RPAREN st3 in
   let st5 := if ok then advance_wss st4 else st4 in
-  let st6 := if tyerr TS_assert_not_any left st5 then add_err_at (E_type TS_assert_not_any) tok st5 else st5 in
+  let st6 := if tyerr TS_assert_not_any left tok then add_err_at (E_type TS_assert_not_any) tok st5 else st5 in
   match t with
   | None => ret None (pop_wss st6)            (* if t == nil { return nil } *)
   | Some _ => ret (Some (TAssert left t)) (pop_wss st6)
